@@ -182,6 +182,19 @@ def r3_mcmc_personalize(ctx, cg, sw):
     ctx.note("no try/finally around the sampling-based personalisation: an exception raised mid-run leaves data and individual latent values in the model (not part of the statement as given)")
 
 
+def r3b_after_cleaning(ctx, sw, rid="C13.R3b", why="the model keeps that cohort's data and individual values after the call: a later call on the same model starts from them"):
+    """After the sampling-based personalisation has cleaned the model's state, what it still computes (the final likelihood terms) is
+    evaluated on a *clone*: the wrapper `_compute_individual_parameters` writes no live state."""
+    ctx.rule(rid, "MCMC personalisation: after the cleaning, data and personalised values are put into a clone of the model's state only", 1)
+    f = ctx.ix.func("leaspy.algo.personalize.mcmc", "McmcPersonalizeAlgorithm._compute_individual_parameters", rid)
+    ctx.analysed(f)
+    live = sw.live_writes(f)
+    for node, desc in live:
+        ctx.violation(rid, f, node, f"{desc} - {why}", construct="writes after the cleaning")
+    if not live:
+        ctx.ok(rid, f, f.node, "every state write of the wrapper goes to a clone of the model's state", construct="writes after the cleaning")
+
+
 INPUT_TYPES = {"AlgorithmSettings": "settings", "Dataset": "dataset", "Data": "data", "OutputsSettings": "output settings", "DataFrame": "table"}
 
 
@@ -360,6 +373,7 @@ def rules(ctx):
     r1_typestate(ctx)
     r2_clone_only(ctx, cg, sw)
     r3_mcmc_personalize(ctx, cg, sw)
+    r3b_after_cleaning(ctx, sw)
     r4_inputs(ctx, cg)
     r5_shared_defaults(ctx)
     r6_no_inplace_on_model_values(ctx)
